@@ -42,6 +42,7 @@ SEQ_DRIVER = os.path.join(vlib.VERIF, "harness", "c19_seq.py")
 STEP_US = 500000        # us: the longest admissible distance of two clock readings of the sequential search ("one step")
 OVERHEAD = 4.0          # s: manager start, forks, last 0.2 s sleep, kills, joins
 TPCP_REF = {}
+KILL_SLACK = 2.0        # s: the parent may notice the passed deadline one 0.2 s poll late (plus scheduling noise)
 PER_PATH = 0.0006       # s per delivered path: list(ListProxy) is one round trip per element
 
 
@@ -280,6 +281,12 @@ def check_run(ctx, name, spec, job, r, full, tpcp):
         if r["wall"] > bound:
             ctx.violation("timeout-overrun", "%s (%d lines) timeout=%s s: search returned after %.2f s (> timeout + %.1f s + %.1f ms/path x %d paths)"
                           % (name, r["klen"], T, r["wall"], OVERHEAD, PER_PATH * 1000, r.get("n_paths", 0)), rp)
+    # the cut itself comes right after the deadline: first SIGKILL no later than timeout + one poll (+ noise) after the last worker start
+    if T is not None and T >= 0 and r["parallel"] and kills and not job.get("shim"):
+        starts = [e["t"] for e in r["events"] if e["ev"] == "start"]
+        if starts and kills[0]["t"] - max(starts) > T + KILL_SLACK:
+            ctx.violation("cut-later-than-timeout", "%s (%d lines) timeout=%s s: the first worker was killed %.2f s after the workers were started (> timeout + %.1f s)"
+                          % (name, r["klen"], T, kills[0]["t"] - max(starts), KILL_SLACK), rp)
     # flag <=> cut
     if r["timed_out"] and not cut and not job.get("shim"):
         ctx.violation(K_FLAG, "%s timeout=%s: timed_out set although no worker was killed (all %d had finished); result complete: %s"
@@ -340,6 +347,8 @@ def campaign(ctx, ks):
         touts = [0, 1, 2] if hard else ([1] if medium else [0, 1, 2, gen])
         if ctx.tier == "quick" and name == "fib60":
             touts = [1]
+        if name == "long_LCD":   # a longer timeout: a poll interval that grows with the elapsed time only shows here
+            touts = touts + ([6] if ctx.tier == "quick" else [3, 6, 11])
         for T in touts:
             plan.append((name, {"spec": spec, "timeout": T, "role": "timed"}))
         if medium:   # two workers: the search takes about half the sequential time, a 1 s timeout strikes in the middle
